@@ -17,7 +17,7 @@ from sim.driver import Report
 PROP = "C12"
 TIERS = {"quick": {"pairs": 100, "envs": 7, "budget": 70.0}, "thorough": {"pairs": 1200, "envs": 12, "budget": 1500.0}}
 SCRATCH = "/dev/shm" if os.path.isdir("/dev/shm") else tempfile.gettempdir()
-E0 = {"route": "api", "heap": 0, "dir_seed": 0, "clock": "2001-02-03T04:05:06", "history": [], "cache": 0, "repeat": 1, "history_same_package": 0, "environ": None, "source_copy": None, "config_version": None, "config_text": None, "source_spelling": None, "optimize": 0}
+E0 = {"route": "api", "heap": 0, "dir_seed": 0, "clock": "2001-02-03T04:05:06", "history": [], "cache": 0, "repeat": 1, "history_same_package": 0, "environ": None, "source_copy": None, "config_version": None, "config_text": None, "source_spelling": None, "optimize": 0, "init_roundtrip": 0}
 ROUTES = ["api", "api_file", "cli_flags", "cli_config", "cli_mixed"]
 
 
@@ -99,7 +99,7 @@ def gen_params(rng):
             adv["extensions"] = rng.sample([["class", ".*", "verifext.Item", False], ["class", "^[A-M].*", "verifext.Status", True], ["decorator", ".*Type$", "verifext.marker", False],
                                             ["class", ".*", "verifext.Base", False], ["class", "^P.*", "verifext.Party", False]], rng.choice([1, 2]))
         if rng.random() < 0.4:
-            adv["substitutions"] = rng.sample([["class", "(.*)Type$", "\\1Kind"], ["field", "^name$", "title"], ["class", "^Item$", "Entry"], ["package", "urn:cyc:a", "alpha_ns"], ["module", "^b$", "bee"]], rng.choice([1, 2]))
+            adv["substitutions"] = rng.sample([["class", "(.*)Type$", "\\1Kind"], ["field", "^name$", "title"], ["class", "^Item$", "Entry"], ["package", "urn:cyc:a", "alpha_ns"], ["module", "^b$", "bee"], ["class", "Stra\u00dfe", "Strasse"], ["field", "pr\u00e9nom", "first_name"]], rng.choice([1, 2]))
         if adv:
             p["adv"] = adv
     if rng.random() < 0.12:
@@ -146,6 +146,8 @@ def gen_env(rng, srcs):
         env["config_text"] = sorted(rng.sample(["bool10", "comment", "nodecl", "crlf", "bom"], rng.choice([1, 1, 2, 3])))
     if rng.random() < 0.25:
         env["source_spelling"] = rng.choice(["rel", "dot", "slash", "dotdot", "uri"])
+    if rng.random() < 0.2:
+        env["init_roundtrip"] = 1  # the project file is refreshed with `xsdata init-config <file>` before it is used
     if rng.random() < 0.1:
         env["optimize"] = 1  # python -O
     if rng.random() < 0.12:
